@@ -9,7 +9,10 @@ import (
 	"verif/harness/evid"
 )
 
-const stallWindowC33 = 6 * time.Second // a stall is C32's business: the C33 run only stops waiting
+const (
+	stallWindowC33 = 6 * time.Second // a stall is C32's business: the C33 run only stops waiting
+	replayReps     = 8
+)
 
 func checkStress33(sc scenarioT, r *evid.Rec) []evid.Disc {
 	if !validScenario(sc) {
@@ -21,30 +24,58 @@ func checkStress33(sc scenarioT, r *evid.Rec) []evid.Disc {
 		r.NotAsserted()
 		return nil
 	}
-	cr, err := runChild(sc, stallWindowC33, childLimit, nil)
-	if err != nil {
-		r.Inconclusive("stress child process could not be started: " + err.Error())
-		r.NotAsserted()
-		return nil
+	// a replay reproduces the operations, not the interleaving: it is executed several times
+	reps := 1
+	if evid.ReplayMode() {
+		reps = replayReps
 	}
-	labelRun(r, "", sc, cr.Res)
-	ds, total := raceDiscs(cr.RaceLog)
-	r.LabelN("race-reports", int64(total))
-	if line, fn := crashOf(cr.Output); line != "" && strings.Contains(line, "concurrent map") {
-		ds = append(ds, evid.D("C33-concurrent-map-access-"+fn, "the runtime aborted the broker process: %s\n%s", line, tail(cr.Output, 3000)))
-	}
-	switch {
-	case cr.Res == nil:
-		r.Label("run:no-result(only the race log is judged)")
-	case cr.Res.Finished:
-		r.Label("run:finished")
-		k := maxOverlap(cr.Res.Spans)
-		r.Label(fmt.Sprintf("kinds-overlapping-in-time=%d", k))
-		if k >= 3 {
-			r.NonTrivial(scenarioKey(sc))
+	var ds []evid.Disc
+	seen := map[string]bool{}
+	for rep := 0; rep < reps; rep++ {
+		cr, err := runChild(sc, stallWindowC33, childLimit, nil)
+		if err != nil {
+			r.Inconclusive("stress child process could not be started: " + err.Error())
+			r.NotAsserted()
+			return nil
 		}
-	default:
-		r.Label("run:stalled(" + cr.Res.Stall + "; C32's business, only the race log is judged)")
+		if rep == 0 {
+			labelRun(r, "", sc, cr.Res)
+		}
+		r.LabelN("executions", 1)
+		rds, total, byHarness := raceDiscs(cr.RaceLog)
+		r.LabelN("race-reports", int64(total))
+		if len(byHarness) > 0 {
+			// seen when Server.Close panics inside sync.WaitGroup.Wait ("WaitGroup is reused before previous Wait has
+			// returned"): Wait has switched race synchronisation off for the goroutine at that point, so the harness's
+			// own mutex-protected bookkeeping after the recover is reported. No access of the broker: not judged.
+			r.LabelN("race-reports-between-harness-accesses(not judged)", int64(len(byHarness)))
+			r.Set("harness_race_report_sample", byHarness[0])
+		}
+		if cr.Res != nil && len(cr.Res.Panics) > 0 {
+			r.LabelN("broker-panics(C32's business)", int64(len(cr.Res.Panics)))
+		}
+		if line, fn := crashOf(cr.Output); line != "" && strings.Contains(line, "concurrent map") {
+			rds = append(rds, evid.D("C33-concurrent-map-access-"+fn, "the runtime aborted the broker process: %s\n%s", line, tail(cr.Output, 3000)))
+		}
+		for _, d := range rds {
+			if !seen[d.Sig] {
+				seen[d.Sig] = true
+				ds = append(ds, d)
+			}
+		}
+		switch {
+		case cr.Res == nil:
+			r.Label("run:no-result(only the race log is judged)")
+		case cr.Res.Finished:
+			r.Label("run:finished")
+			k := maxOverlap(cr.Res.Spans)
+			r.Label(fmt.Sprintf("kinds-overlapping-in-time=%d", k))
+			if k >= 3 {
+				r.NonTrivial(scenarioKey(sc))
+			}
+		default:
+			r.Label("run:stalled(" + cr.Res.Stall + "; C32's business, only the race log is judged)")
+		}
 	}
 	if len(ds) > 0 {
 		ds[0].Ctx = "the scenario is replayable, the race only statistically (it depends on the schedule)"
